@@ -43,6 +43,7 @@ type c21Spec struct {
 	Steps      []c21Step   `json:"steps,omitempty"`   // seq: the whole history; conc3: sequential setup
 	Clients    [][]c21Step `json:"clients,omitempty"` // conc3
 	Excluded   int         `json:"poison_candidates_excluded"`
+	LeaseMs    int         `json:"lease_ms,omitempty"` // lease of the foreign claim of steps marked leased
 }
 
 var c21Buckets = []string{"c21-bkt-a", "c21-bkt-b", "c21-bkt-c"}
@@ -63,6 +64,9 @@ func genC21Spec(rng *vkit.Rand, index int) c21Spec {
 	}
 	if rg.Chance(50) {
 		s.Hooks = append(s.Hooks, hookRule{Point: vkit.Pick(rg, []string{"tx.commit.before-db", "tx.commit.after-db", "tx.commit.enter"}), Every: rg.Range(2, 6), DelayMs: rg.Range(1, 6)})
+	}
+	if s.Variant == "seq" && index%8 == 1 {
+		s.LeaseMs = 1200
 	}
 	if s.Variant == "seq" {
 		genC21Seq(rg, &s)
@@ -92,6 +96,7 @@ func genC21Seq(rg *vkit.Rand, s *c21Spec) {
 	seq := 0
 	fake := func() *mObj { seq++; return &mObj{FP: objFP{Content: fmt.Sprintf("gen-%d", seq)}} }
 	n := 25
+	leasedDone := false
 	for len(s.Steps) < n {
 		names := m.bucketNames()
 		if len(names) == 0 {
@@ -110,6 +115,21 @@ func genC21Seq(rg *vkit.Rand, s *c21Spec) {
 		case roll < 22:
 			st := putStep(rg, b, k, seq)
 			m.set(b, k, fake())
+			if s.LeaseMs > 0 && !leasedDone && !bk.EverVersioned && len(s.Steps) >= 2 {
+				// the entry of this put stays leased by a foreign owner; a later write of the
+				// same key is accepted right behind it
+				leasedDone = true
+				st.Leased = true
+				s.Steps = append(s.Steps, st)
+				seq++
+				if rg.Chance(60) {
+					s.Steps = append(s.Steps, putStep(rg, b, k, seq))
+				} else {
+					m.set(b, k, nil)
+					s.Steps = append(s.Steps, c21Step{Op: "delete", Bucket: b, Key: k})
+				}
+				continue
+			}
 			s.Steps = append(s.Steps, st)
 		case roll < 33:
 			// delete of an existing key (mostly) or of a key that does not exist
@@ -470,8 +490,54 @@ func (c *c21Run) waitDrained(limit time.Duration) bool {
 
 // exec runs one step through the outbox storage and returns what the client saw.
 func (c *c21Run) exec(client int, st c21Step) c21Rec {
-	ctx := context.Background()
-	ob := c.ob
+	if st.Leased {
+		return c.execLeased(client, st)
+	}
+	return c.execOn(context.Background(), c.ob, client, st)
+}
+
+// execLeased accepts the write like any other, but in the same transaction the
+// freshly queued entry (the head of the drained queue) is claimed by a foreign
+// owner with a short lease - the state a second instance sharing the outbox id,
+// or a process that died after claiming, leaves behind. The foreign owner never
+// finishes; this instance takes the entry over when the lease has expired.
+// Convergence must still follow acceptance order.
+func (c *c21Run) execLeased(client int, st c21Step) c21Rec {
+	var rec c21Rec
+	if !c.waitDrained(60 * time.Second) {
+		rec = c21Rec{Client: client, Step: st, Out: "err:not-drained-before-leased-step"}
+		return rec
+	}
+	ts, ok := c.ob.(storage.TransactionalStorage)
+	if !ok {
+		return c.execOn(context.Background(), c.ob, client, st)
+	}
+	claimedOK := false
+	err := ts.WithTransaction(context.Background(), &sql.TxOptions{}, func(ctx context.Context, tx storage.Storage) error {
+		rec = c.execOn(ctx, tx, client, st)
+		if rec.Out != "ok" {
+			return nil
+		}
+		return database.WithTx(ctx, c.dbOut, &sql.TxOptions{}, func(ctx context.Context, dtx database.Tx) error {
+			now := time.Now().UTC()
+			_, claimed, err := c.repo.ClaimFirstStorageOutboxEntry(ctx, dtx.SqlTx(), "c21", "c21:foreign-owner-that-died", now, now.Add(time.Duration(c.spec.LeaseMs)*time.Millisecond))
+			claimedOK = claimed
+			return err
+		})
+	})
+	if err != nil {
+		rec.Out = "err:leased-step-tx:" + err.Error()
+		return rec
+	}
+	if claimedOK {
+		c.res.count("entries_left_leased_by_foreign_owner", 1)
+	} else {
+		c.res.count("foreign_claim_not_taken", 1)
+	}
+	return rec
+}
+
+func (c *c21Run) execOn(ctx context.Context, ob storage.Storage, client int, st c21Step) c21Rec {
 	rec := c21Rec{Client: client, Step: st}
 	bn := func(s string) storage.BucketName { return storage.MustNewBucketName(s) }
 	kn := func(s string) storage.ObjectKey { return storage.MustNewObjectKey(s) }
